@@ -327,7 +327,7 @@ pub fn run(ctx: &'static Ctx) -> (&'static str, Value, Vec<&'static str>) {
     let thorough = ctx.tier.thorough();
     let cache = Arc::new(Cache::new());
     let configs: Vec<(Vec<u8>, usize)> = if thorough {
-        vec![((0..7).collect(), 7), (vec![0, 2], 14), (vec![0, 1, 2, 7, 3], 8)]
+        vec![((0..7).collect(), 8), (vec![0, 2], 16), (vec![0, 1, 2, 7, 3], 9)]
     } else {
         vec![((0..7).collect(), 6), (vec![0, 2], 12), (vec![0, 2, 7, 3], 7)]
     };
